@@ -11,8 +11,8 @@ from vlib import build_walks, read_ndjson, split_traces, Infra
 
 PROPS = ["C21", "C22"]
 
-QUICK = {"C21": ["P2", "M", "A"], "C22": ["T", "A"], "C35": ["P2", "M"]}
-THOROUGH = {"C21": ["P", "Q", "A", "M", "T"], "C22": ["P", "Q", "A", "M", "T"], "C35": ["P2", "M", "A", "T"]}
+QUICK = {"C21": ["P2", "M", "A"], "C22": ["T", "A", "O"], "C35": ["P2", "M"]}
+THOROUGH = {"C21": ["P", "Q", "A", "M", "T"], "C22": ["P", "Q", "A", "M", "T", "O", "U"], "C35": ["P2", "M", "A", "T"]}
 # free-running races (one handler's snapshot write is slow, the other starts meanwhile, the process
 # stops when the slow write returned): which pairs exist per scenario
 RACES = {"P2": ["X,Y", "Y,X"], "P": ["X,Y", "Y,X", "Y,Z"], "Q": ["Y,W"], "A": ["X,Y", "Y,X"], "M": ["X,Y", "Y,X"], "T": ["Y,W"]}
@@ -140,7 +140,7 @@ def run(ctx, args, race_only=False):
                 continue
             o = e["obs"]
             if ctx.pid == "C21" and "C21-1" in mine:
-                cons = {"P2": {"X"}, "P": {"X"}, "Q": {"X"}, "A": {"X"}, "M": {"X"}, "T": set()}[sc]
+                cons = {"P2": {"X"}, "P": {"X"}, "Q": {"X"}, "A": {"X"}, "M": {"X"}}.get(sc, set())
                 t = o["topo"]
                 mpos = t.index(o["marker"]) + 1 if o["marker"] in t else 0
                 if any(s in cons and mpos < i + 1 for i, s in enumerate(t)):
